@@ -3,7 +3,7 @@ import numpy as np
 from ..runner import Acc, HarnessError
 from ..refmodel import Fmt
 from .. import alphabet as al
-from ..common import AGED, Fxp, codes, flags, fmt_of, reset_class_state, build
+from ..common import AGED, ENVS, Fxp, codes, flags, fmt_of, reset_class_state, build
 
 ID = 'C13'
 RULE = ('cases = (x format, y kind [Fxp of either signedness / int mask right / int mask left], operator in {~,&,|,^}, code pair); result must have '
@@ -13,6 +13,7 @@ ASSUMPTIONS = ['array op array is not claimed by the property and not judged (ar
 
 BIN = {'&': lambda a, b: a & b, '|': lambda a, b: a | b, '^': lambda a, b: a ^ b}
 BINL = ('&', '|', '^')
+C13_ENVS = tuple(e for e in ENVS if e != 'flagged')       # results are deep copies of x: its status record travels with them
 WIDE_WORDS = (16, 31, 32, 33, 63, 64, 65, 100, 128)
 
 
@@ -349,6 +350,10 @@ def run_shard(sh):
                                 judge_binary(acc, fxm, xs, 'fxp', yf, yc, op, 'S', 'raw', True)            # x &= y
                                 judge_binary(acc, fxm, xs, 'fxp', yf, yc, op, 'S', 'raw', False, 'wrap')   # x configured to wrap
                                 judge_binary(acc, fxm, xs[0], 'fxp', yf, yc, op, 'S', 'raw', True, 'wrap')
+                                if yc in (yf.lo, 1):
+                                    for env in (C13_ENVS if nw <= 2 else (C13_ENVS[(yc + nfy + BINL.index(op) + int(sy)) % len(C13_ENVS)],)):
+                                        judge_binary(acc, fxm, xs, 'fxp', yf, yc, op, 'S', 'env:' + env)
+                                        judge_binary(acc, fxm, xs[0], 'fxp', yf, yc, op, 'S', 'env:' + env)
                                 if yc in (yf.lo, yf.hi, 1):
                                     # operands reached through a history: all of them for n_word<=2, one in rotation above
                                     for how in (AGED if nw <= 2 else (AGED[(yc + nfy + BINL.index(op) + int(sy)) % len(AGED)],)):
